@@ -805,6 +805,7 @@ func runAny(t fataler, src []byte, inline bool) (units int, begins int, parseErr
 	p, done := newParser(t, src, inline)
 	defer done()
 	var stack []css.GrammarType
+	var customName []byte
 	hadParseErr := false
 	for i := 0; ; i++ {
 		if i > 4*len(src)+16 {
@@ -857,7 +858,9 @@ func runAny(t fataler, src []byte, inline bool) (units int, begins int, parseErr
 		case css.DeclarationGrammar:
 			match(tt, data, true, "Declaration name")
 		case css.CustomPropertyGrammar:
-			match(css.CustomPropertyNameToken, data, false, "CustomProperty name")
+			// matched together with its value below: an earlier occurrence of the same name that was only part of a parse
+			// error (reported through no token) must not be taken for this one
+			customName = data
 		}
 		if valueDefining[gt] {
 			for _, v := range p.Values() {
@@ -867,18 +870,33 @@ func runAny(t fataler, src []byte, inline bool) (units int, begins int, parseErr
 						t.Fatalf("%q: whitespace token %q in Values()", src, v.Data)
 					}
 				case css.CustomPropertyValueToken:
-					// the exact source text between the colon and the terminator: the run of lexer tokens behind the next colon
-					for pos < len(lexed) && lexed[pos].TokenType != css.ColonToken {
-						pos++
-					}
-					pos++
-					rest := v.Data
-					for len(rest) > 0 {
-						if pos >= len(lexed) || !bytes.HasPrefix(rest, lexed[pos].Data) {
-							t.Fatalf("%q: custom property value %q is not the exact source text behind the colon (differs at %q)", src, v.Data, rest)
+					// the exact source text between the colon and the terminator: some occurrence of the name in the rest of
+					// the lexer tokens is followed by a colon and by tokens that spell the value
+					found := false
+					for k := pos; k < len(lexed) && !found; k++ {
+						// (IE hack: an asterisk in front of the name is glued to it)
+						if lexed[k].TokenType != css.CustomPropertyNameToken || !bytes.Equal(lexed[k].Data, customName) && !(len(customName) > 1 && customName[0] == '*' && bytes.Equal(lexed[k].Data, customName[1:])) {
+							continue
 						}
-						rest = rest[len(lexed[pos].Data):]
-						pos++
+						j := k + 1
+						for j < len(lexed) && (lexed[j].TokenType == css.WhitespaceToken || lexed[j].TokenType == css.CommentToken) {
+							j++
+						}
+						if j >= len(lexed) || lexed[j].TokenType != css.ColonToken {
+							continue
+						}
+						j++
+						rest := v.Data
+						for len(rest) > 0 && j < len(lexed) && bytes.HasPrefix(rest, lexed[j].Data) {
+							rest = rest[len(lexed[j].Data):]
+							j++
+						}
+						if len(rest) == 0 {
+							found, pos = true, j
+						}
+					}
+					if !found {
+						t.Fatalf("%q: custom property %q has the value %q, which is not the exact source text behind the colon of any occurrence of that name in the rest of the input", src, customName, v.Data)
 					}
 				default:
 					match(v.TokenType, v.Data, false, gt.String()+" Values()")
